@@ -741,6 +741,18 @@ fn book_evaluated(m: &Model, ctx: &mut Ctx) {
         match name {
             // the inner parser is applied to the input it is handed: the rule observes that input
             ".parse" if a.len() == 2 => Some(Ok(a[1].clone())),
+            ".starts_with" | ".ends_with" if a.len() == 2 && matches!(&a[0], Val::Str(_)) => {
+                let Val::Str(t) = &a[0] else { return None };
+                let test = |pat: &str| if name == ".starts_with" { t.starts_with(pat) } else { t.ends_with(pat) };
+                match &a[1] {
+                    Val::Str(p) => Some(Ok(Val::Bool(test(p)))),
+                    Val::Char(c) => Some(Ok(Val::Bool(test(&c.to_string())))),
+                    Val::List(cs) => Some(Ok(Val::Bool(cs.iter().any(|c| matches!(c, Val::Char(ch) if test(&ch.to_string())))))),
+                    _ => None,
+                }
+            }
+            ".inner" | ".into_inner" if a.len() == 1 => field_of(&a[0], "inner").cloned().map(Ok),
+            ".is_empty" if a.len() == 1 && matches!(&a[0], Val::Str(_)) => match &a[0] { Val::Str(t) => Some(Ok(Val::Bool(t.is_empty()))), _ => None },
             ".as_ref" | ".as_str" | ".borrow" | ".deref" if a.len() == 1 => Some(Ok(a[0].clone())),
             _ => None,
         }
@@ -791,18 +803,24 @@ fn book_evaluated(m: &Model, ctx: &mut Ctx) {
         Ok(f) => {
             ctx.func(&f.key);
             ctx.oblige("C17.book", "reset_context", true);
-            let before = input_val("C ::= D", Some("dir/x.asn"), 7, 3, 42, 2, 10);
-            let mut env = Env::new();
-            env.insert("self".into(), before.clone());
-            match ev.eval_fn_body(&f.block, &mut env) {
-                Ok(_) => {
-                    let after = env.get("self").cloned().unwrap_or(Val::Unit);
-                    let want = input_val("C ::= D", Some("dir/x.asn"), 7, 3, 42, 7, 42);
-                    if after != want {
-                        ctx.violate("C17.book", "reset_context", &f.file, f.line, &format!("reset_context on an Input at line 7, column 3, offset 42 (context start 2 / 10) must move the context start to (7, 42) and change nothing else; it leaves line {:?}, column {:?}, offset {:?}, context start ({:?}, {:?})", field_int(&after, "line"), field_int(&after, "column"), field_int(&after, "offset"), field_int(&after, "context_start_line"), field_int(&after, "context_start_offset")));
+            // whatever the rest of the input begins with (text, a line break behind the last token of a line, nothing): the
+            // context starts at the *current* position — contextualize() cuts the excerpt at context_start_offset and numbers
+            // its lines from context_start_line, so the two must describe one place
+            for rest in ["C ::= D", "\nC ::= D", "\r\nC ::= D", ""] {
+                let before = input_val(rest, Some("dir/x.asn"), 7, 3, 42, 2, 10);
+                let mut env = Env::new();
+                env.insert("self".into(), before.clone());
+                match ev.eval_fn_body(&f.block, &mut env) {
+                    Ok(_) => {
+                        let after = env.get("self").cloned().unwrap_or(Val::Unit);
+                        let want = input_val(rest, Some("dir/x.asn"), 7, 3, 42, 7, 42);
+                        if after != want {
+                            ctx.violate("C17.book", "reset_context", &f.file, f.line, &format!("reset_context on an Input at line 7, column 3, offset 42 (context start 2 / 10, rest of the input {:?}) must move the context start to (7, 42) and change nothing else; it leaves line {:?}, column {:?}, offset {:?}, context start ({:?}, {:?}) — the excerpt of a later error is cut at one place and numbered from another", rest, field_int(&after, "line"), field_int(&after, "column"), field_int(&after, "offset"), field_int(&after, "context_start_line"), field_int(&after, "context_start_offset")));
+                            break;
+                        }
                     }
+                    Err(e) => { ctx.fail_closed("C17.book", &format!("[reset_context, rest {:?}]: {}", rest, e)); break }
                 }
-                Err(e) => ctx.fail_closed("C17.book", &format!("[reset_context]: {}", e)),
             }
         }
         Err(e) => ctx.fail_closed("C17.book", &format!("anchor not found: Input::reset_context ({})", e)),
@@ -851,6 +869,13 @@ fn path_evaluated(m: &Model, ctx: &mut Ctx) {
         match name {
             "read_to_string" | "fs::read_to_string" | "std::fs::read_to_string" if a.len() == 1 => Some(Ok(Val::Ctor("Ok".into(), vec![Val::Str("FILE ::= TEXT\r\n".into())], Default::default()))),
             "Cow::Owned" | "Cow::Borrowed" | "Cow::from" | "String::from" if a.len() == 1 => Some(Ok(a[0].clone())),
+            // a path whose name is not valid UTF-8 still has a lossy rendering; `to_str` has none
+            ".to_string_lossy" | ".display" if a.len() == 1 && matches!(&a[0], Val::Ctor(n, ..) if n == "$path") => field_of(&a[0], "lossy").cloned().map(Ok),
+            ".to_str" | "Path::to_str" if a.len() == 1 && matches!(&a[0], Val::Ctor(n, ..) if n == "$path") => {
+                let utf8 = field_of(&a[0], "utf8") == Some(&Val::Bool(true));
+                Some(Ok(if utf8 { Val::some(field_of(&a[0], "lossy").cloned().unwrap_or(Val::Unit)) } else { Val::none() }))
+            }
+            ".to_str" | "Path::to_str" if a.len() == 1 && matches!(&a[0], Val::Str(_)) => Some(Ok(Val::some(a[0].clone()))),
             ".to_string_lossy" | ".as_ref" | ".as_str" | ".as_path" | ".display" | ".into_owned" | ".to_path_buf" | ".deref" | ".borrow" if a.len() == 1 => Some(Ok(a[0].clone())),
             // `Input::from(&unit)` / `unit.into()`: the crate has one conversion from a source unit, From<&AsnSourceUnit> for Input
             "Input::from" | "Input::new" | ".into" | "Into::into" | "From::from" if a.len() == 1 && matches!(&a[0], Val::Ctor(n, ..) if n == "AsnSourceUnit") => {
@@ -935,10 +960,17 @@ fn path_evaluated(m: &Model, ctx: &mut Ctx) {
         Err(e) => ctx.fail_closed("C17.path", &format!("anchor not found: Input::src_file ({})", e)),
         Ok(f) => {
             ctx.func(&f.key);
-            for file in [Some("dir/x.asn"), None] {
-                ctx.oblige("C17.path", &format!("src_file-accessor:{}", file.is_some()), true);
+            for (file, utf8) in [(Some("dir/x.asn"), true), (Some("dir/x\u{fffd}.asn"), false), (None, true)] {
+                ctx.oblige("C17.path", &format!("src_file-accessor:{}:{}", file.is_some(), utf8), true);
                 let mut env = Env::new();
-                env.insert("self".into(), input_val("x", file, 1, 1, 0, 1, 0));
+                let mut me = input_val("x", file, 1, 1, 0, 1, 0);
+                if let (Val::Ctor(_, _, fm), Some(fl)) = (&mut me, file) {
+                    let mut pm = std::collections::BTreeMap::new();
+                    pm.insert("lossy".to_string(), Val::Str(fl.into()));
+                    pm.insert("utf8".to_string(), Val::Bool(utf8));
+                    fm.insert("src_file".to_string(), Val::some(Val::Ctor("$path".into(), vec![], pm)));
+                }
+                env.insert("self".into(), me);
                 match ev.eval_fn_body(&f.block, &mut env) {
                     Ok(v) => {
                         let ok = match (file, &v) {
@@ -947,7 +979,7 @@ fn path_evaluated(m: &Model, ctx: &mut Ctx) {
                             _ => false,
                         };
                         if !ok {
-                            ctx.violate("C17.path", "src_file-accessor", &f.file, f.line, &format!("Input::src_file() of an input read from {:?} yields {}: the error report names another file or none", file, v.show()));
+                            ctx.violate("C17.path", "src_file-accessor", &f.file, f.line, &format!("Input::src_file() of an input read from {:?}{} yields {}: the error report names another file or none", file, if utf8 { "" } else { " (a name that is not valid UTF-8; U+FFFD stands for the offending bytes)" }, v.show()));
                         }
                     }
                     Err(e) => ctx.fail_closed("C17.path", &format!("[Input::src_file]: {}", e)),
